@@ -164,4 +164,16 @@ theorem lastField_saltOf (pfx : Str) (B : Nat) (s22 : Str) (hs : s22.all isBc64 
     (by simp)
   rw [this.1, List.reverse_reverse]
 
+/-- the pre-hash key of a salt in the package's layout: its 22 characters -/
+theorem saltKey_saltOf (pfx : Str) (B : Nat) (s22 : Str) (hs : Bc64Text 22 s22) : saltKey (saltOf pfx B s22) = s22 := by
+  unfold saltKey
+  rw [lastField_saltOf pfx B s22 hs.2, ← hs.1, List.take_length]
+
+/-- … and of a WHOLE bcrypt string handed over as the salt: still the 22 salt characters, not the 53 that follow the last "$" -/
+theorem saltKey_bcStr (pfx : Str) (B : Nat) (s22 d : Str) (hs : Bc64Text 22 s22) (hd : d.all isBc64 = true) :
+    saltKey (bcStr pfx B s22 d) = s22 := by
+  have h : bcStr pfx B s22 d = saltOf pfx B (s22 ++ d) := by simp [bcStr, saltOf, List.append_assoc]
+  unfold saltKey
+  rw [h, lastField_saltOf pfx B (s22 ++ d) (by simp [List.all_append, hs.2, hd]), ← hs.1, List.take_left]
+
 end Lemmas.C20BcryptStr
